@@ -37,3 +37,16 @@ Definition has_globals_param (f : fndef) : bool :=
   existsb (fun s => match s with SParam x i => String.eqb x globals_param && Nat.eqb (S i) (f_nparams f) | _ => false end) (f_body f).
 Lemma globals_is_a_parameter : forallb has_globals_param api_functions = true.
 Proof. vm_compute. reflexivity. Qed.
+
+Lemma api_entry_points_write_nothing :
+  (forall r, In r api_roots -> exists f, In f api_functions /\ f_name f = r) /\
+  (forall f, In f api_functions -> existsb (fun s => match s with SParam x i => String.eqb x globals_param && Nat.eqb (S i) (f_nparams f) | _ => false end) (f_body f) = true) /\
+  (forall f, In f api_functions -> In (f_name f) api_roots -> f_stores f = []).
+Proof.
+  split; [|split].
+  - intros r Hr. destruct api_roots_present as [H _]. rewrite forallb_forall in H. specialize (H r Hr).
+    unfold root_present_b in H. apply existsb_exists in H. destruct H as [f [Hf He]]. exists f. split; [exact Hf|].
+    now apply String.eqb_eq in He.
+  - intros f Hf. pose proof globals_is_a_parameter as H. rewrite forallb_forall in H. exact (H f Hf).
+  - exact api_roots_pure.
+Qed.
